@@ -826,13 +826,13 @@ def defaultStep (s : Schema) (linked : Bool) (fc : FieldCtx) (un1 : List (Nat ×
       | .error e => (un1, none, some e)
       | .ok txt => (removeAt un1 i, some txt, none)
 
-/-- before linking, a field with a named type has no `type` yet: GetType() answers TYPE_DOUBLE -/
+/-- before linking, a field with a named type has no `type` yet: GetType() answers TYPE_DOUBLE
+    (a group field is TYPE_GROUP from the parser on) -/
 def unlinkedFieldCtx (linked : Bool) (fc0 : FieldCtx) : FieldCtx :=
   if linked then fc0 else
     match fc0.kind with
     | .enum _ => { fc0 with kind := .dbl }
     | .msg _ => { fc0 with kind := .dbl }
-    | .group _ => { fc0 with kind := .dbl }
     | _ => fc0
 
 /-- interpretFieldPseudoOptions as it runs with lenience enabled (errors are recorded and the code
